@@ -210,7 +210,62 @@ func c03Mapping(c *Ctx, G *ssa.Function, L *ssa.Call, typeD, storesParam string)
 					}
 				}
 			default:
-				c.Bad("mapping/"+fnName(fn), "the store type handed to the loader is a constant chosen by the signing scheme", w.InstrPos(call), "non-constant store type: "+desc(v))
+				// the mapping may live in a helper `scheme -> (store type, error)`: every value-delivering exit of the helper
+				// returns a constant under the scheme test of its own parameter, which the caller feeds with its scheme
+				handled := false
+				if ex, isEx := v.(*ssa.Extract); isEx && ex.Index == 0 {
+					if hc, isC := ex.Tuple.(*ssa.Call); isC {
+						if H := staticCallee(hc); H != nil && w.IsProductFn(H) && len(hc.Call.Args) == 1 && strings.HasPrefix(desc(hc.Call.Args[0]), "param:") {
+							hfi := w.Info(H)
+							handled = true
+							for _, hb := range H.Blocks {
+								hr, isR := blockTerm(hb).(*ssa.Return)
+								if !isR || len(hr.Results) != 2 {
+									continue
+								}
+								k, isK := hr.Results[0].(*ssa.Const)
+								if !isK {
+									handled = false
+									continue
+								}
+								if isErrorType(hr.Results[1].Type()) {
+									if !isNilConst(hr.Results[1]) {
+										continue // failing exit
+									}
+								} else if kb, isB := hr.Results[1].(*ssa.Const); isB && constString(kb) == "false" {
+									continue // failing exit (ok == false)
+								}
+								ks := constString(k)
+								wr.consts = append(wr.consts, ks)
+								scheme, known := want[ks]
+								key := "mapping/" + strings.Trim(ks, `"`)
+								rule := "scheme -> store type: the constant " + ks + " reaches the loader only under signing scheme == " + scheme
+								if !known {
+									c.Bad(key, "scheme -> store type: only ca, signingAuthority and tsa are loaded", w.InstrPos(hr), "unexpected store type constant "+ks)
+									continue
+								}
+								gl := map[string]string{}
+								if hb.Index != 0 {
+									gl, _ = hfi.mustPassBetween([]int{0}, map[int]bool{hb.Index: true})
+								}
+								c.Evals++
+								if _, ok := hasLabel(gl, "EQ(param:"+H.Params[0].Name(), fmt.Sprintf(",const:%q)", scheme)); ok {
+									c.OK(key, rule+" (in the mapping helper "+fnName(H)+")", w.InstrPos(hr))
+									seen[ks] = true
+								} else {
+									c.Bad(key, rule, w.InstrPos(hr), "the helper returns the constant without that scheme test; guards: "+summarizeLabels(gl, 8))
+								}
+							}
+							// the helper's error gates the load
+							if gg := ffi.GuardsOf(call); !labelHas(gg, "EQ("+desc(hc)+"#err,nil)") && !labelHas(gg, "T("+desc(hc)+"#1)") {
+								handled = false
+							}
+						}
+					}
+				}
+				if !handled {
+					c.Bad("mapping/"+fnName(fn), "the store type handed to the loader is a constant chosen by the signing scheme", w.InstrPos(call), "non-constant store type: "+desc(v))
+				}
 			}
 			for _, e := range edges {
 				ks := constString(e.k)
@@ -350,10 +405,36 @@ func c03Authenticity(c *Ctx, F *ssa.Function, load *ssa.Call) {
 				continue
 			}
 			fa, isFa := st.Addr.(*ssa.FieldAddr)
-			if !isFa || !isVRPtr(fa.X.Type()) || fieldName(fa.X.Type(), fa.Field) != "Error" || desc(st.Val) != loadErr {
+			if !isFa || !isVRPtr(fa.X.Type()) || fieldName(fa.X.Type(), fa.Field) != "Error" {
 				continue
 			}
-			if labelHas(fi.GuardsOf(st), "NE("+loadErr+",nil)") {
+			carries := desc(st.Val) == loadErr && labelHas(fi.GuardsOf(st), "NE("+loadErr+",nil)")
+			// one result object filled in at the end: the stored value is a phi one edge of which is the loader's error,
+			// arriving from the branch taken when that error is non-nil
+			if ph, isPhi := st.Val.(*ssa.Phi); isPhi && !carries {
+				for i, e := range ph.Edges {
+					if desc(e) != loadErr {
+						continue
+					}
+					pred := ph.Block().Preds[i]
+					gl := map[string]string{}
+					if pred.Index != 0 {
+						gl, _ = fi.mustPassBetween([]int{0}, map[int]bool{pred.Index: true})
+					}
+					if labelHas(gl, "NE("+loadErr+",nil)") {
+						carries = true
+					}
+					// or the edge itself is the non-nil branch of the test
+					if iff, isIf := blockTerm(pred).(*ssa.If); isIf {
+						for j, sc := range pred.Succs {
+							if sc == ph.Block() && condLabel(iff.Cond, j == 0) == "NE("+loadErr+",nil)" {
+								carries = true
+							}
+						}
+					}
+				}
+			}
+			if carries {
 				// the same object has Type authenticity
 				if al, isAl := fa.X.(*ssa.Alloc); isAl {
 					for _, r := range *al.Referrers() {
@@ -386,7 +467,15 @@ func c03Authenticity(c *Ctx, F *ssa.Function, load *ssa.Call) {
 			{Name: "verify-error-fails", What: "signature.VerifyAuthenticity err == nil", Subs: []string{"EQ(call:core/signature.VerifyAuthenticity(", "#err,nil)"}},
 		})
 		// first argument: the verified signer info
-		c.Check(strings.HasSuffix(desc(va.Call.Args[0]), ".EnvelopeContent.SignerInfo"), "authenticity/signer-info", "provenance: VerifyAuthenticity is applied to the verified envelope's SignerInfo", w.InstrPos(va), "first argument is "+desc(va.Call.Args[0]))
+		siD := desc(va.Call.Args[0])
+		if strings.HasPrefix(siD, "param:") && viaCall != nil {
+			for i, p := range vaFn.Params {
+				if "param:"+p.Name() == siD && i < len(viaCall.Call.Args) {
+					siD = desc(viaCall.Call.Args[i])
+				}
+			}
+		}
+		c.Check(strings.HasSuffix(siD, ".EnvelopeContent.SignerInfo") || strings.HasSuffix(desc(va.Call.Args[0]), ".EnvelopeContent.SignerInfo"), "authenticity/signer-info", "provenance: VerifyAuthenticity is applied to the verified envelope's SignerInfo", w.InstrPos(va), "first argument is "+desc(va.Call.Args[0]))
 	}
 }
 
